@@ -2,7 +2,7 @@
    sample_khatri_rao) on the same integer / Gaussian-integer operands as the implementation and
    compare bit for bit. *)
 From Coq Require Import List Arith ZArith Bool.
-From TLV Require Import Base.Shape Base.PyList Base.Tensor Model.Base Model.Tenalg Corr.Common.
+From TLV Require Import Base.Shape Base.PyList Base.Tensor Model.Base Model.Tenalg Model.TenalgRaw Corr.Common.
 Import ListNotations.
 
 (* be: false = core backend, true = einsum backend *)
@@ -14,6 +14,7 @@ Inductive op :=
 | OKhatri (be : bool) (hasw hasmask : bool) (skip : option nat)                     (* Ms ++ [w] ++ [mask] *)
 | OKron (be : bool) (skip : option nat) (reverse : bool)                            (* Ms *)
 | OInner (be : bool) (n_modes : option nat)                                         (* [A; B] *)
+| OInnerAsIs (n_modes : nat)      (* [A; B]; core inner as the code is, n_modes beyond the order of A (Model/TenalgRaw.v) *)
 | OOuter (be : bool) | OBOuter (be : bool)                                          (* ts *)
 | OTdot (be : bool) (m1 m2 b1 b2 : list nat)                                        (* [A; B] *)
 | OTdotRaw (be : bool) (ma ba : marg)            (* [A; B]; modes / batched_modes in the argument form given to the code *)
@@ -44,6 +45,7 @@ Definition run (o : op) (ts : list (tensor F)) : res (tensor F) :=
       (if be then khatri_rao_e else khatri_rao) Op Ms w mask skip
   | OKron be skip reverse => (if be then kronecker_e else kronecker) Op ts skip reverse
   | OInner be n => match ts with [A; B] => (if be then inner_e else inner) Op A B n | _ => Err end
+  | OInnerAsIs n => match ts with [A; B] => inner_as_is Op A B n | _ => Err end
   | OOuter be => (if be then outer_e else outer) Op ts
   | OBOuter be => (if be then batched_outer_e else batched_outer) Op ts
   | OTdot be m1 m2 b1 b2 =>
